@@ -7,16 +7,17 @@
   * `fix_nested(template)` wraps the cells of sequence children as inner streams,
   * a child selection of a sequence child makes the inner sequence the template (`level = 1`); the maps
     recorded afterwards are `deep_map(f, 2)`: `f` over every inner row,
-  * `build_filter` walks `id1.split(".")` down the template: one token = a level-0 filter on the source
-    rows; two tokens = the filter is `bool` and the *map* filters the inner rows of the named child
-    (`recurse`), found among the visible keys the template had when the filter was built,
-  * a filter built while the template is the inner sequence (after a child selection) is, as the code
-    stands, a level-0 filter: it is evaluated on the OUTER source rows with the inner column index
-    (finding C17.filter_after_inner_child; `Props/C17.lean` has the refuted/partial pair).
+  * `build_filter(key, self.root)` walks `id1.split(".")` down the template of the SOURCE rows (repaired
+    code: whatever was selected so far): one token = a level-0 filter on the source rows; two tokens = the
+    filter is `bool` and the *map* filters the records of the named child (`recurse`), found among all the
+    keys of the outer sequence,
+  * the map of a clause is inserted at the FRONT of `imap`: it acts on the source row, before
+    `fix_nested` and before every recorded selection.
 
+  `self.root` is the outer sequence: its id and `_dict` are the fields `id`, `hdr` of the stream.
   Closures are represented by the data they capture.  The model follows the repaired code
-  (column-vs-column operand looked up among the keys of the clause's own sequence; the nested map
-  leaves a row alone when the filtered child is not among the visible keys).
+  (column-vs-column operand looked up among the keys of the clause's own sequence; clauses resolved
+  against `root`).
 -/
 import PydapModel.IterData
 namespace Pydap.IterNest
@@ -53,7 +54,7 @@ inductive NMap (A : Type) where
   | ident
   | item (col : Nat) (level : Nat)          -- `deep_map(itemgetter(col), level)`
   | proj (cols : List Nat) (level : Nat)    -- `deep_map(lambda row: tuple(row[i] for i in cols), level)`
-  | nest (ocol : Option Nat) (f : Filt A)   -- `m(row) = recurse(row, [n, x], template)`; `none`: `n` not visible
+  | nest (col : Nat) (f : Filt A)           -- `m(row) = recurse(row, [n, x], root)`; `col`: index of `n` among all keys
 deriving DecidableEq, Repr
 
 /-- what iteration yields -/
@@ -130,8 +131,7 @@ def evalMap {A} (cmp : Op → A → A → Bool) : NMap A → Item A → Except E
       if lvl = 1 then (cols.mapM (getCell r)).map Item.row else .error .typeError
   | .proj cols lvl, .inner rows =>
       if lvl = 2 then (mapE (fun ir => cols.mapM (getCell ir)) rows).map Item.inner else .error .typeError
-  | .nest none _, .row r => .ok (.row r)
-  | .nest (some c) f, .row r =>
+  | .nest c f, .row r =>
       match r[c]? with
       | some (.seq rows) => (filterE (evalFilt cmp f) rows).map fun kept => Item.row (r.set c (.seq kept))
       | some (.base _) => .error .typeError
@@ -167,40 +167,26 @@ def innerKeys (hdr : Hdr) (n : Name) : Option (List Name) :=
   | some (some ks) => some ks
   | _ => none
 
+/-- `build_filter(expression, root)`, `root` = the outer sequence `id` with children `hdr` -/
 def buildFilter {A} (lit : List Char → Option A) (id : Name) (hdr : Hdr) (c : Cond) :
-    Tmpl → Except Err (NFilt A × NMap A)
-  | .base _ => .error .ceError
-  | .inner n _ =>
-    -- the template is the inner sequence `id.n`: one token, `level == 0`
-    match innerKeys hdr n with
+    Except Err (NFilt A × NMap A) :=
+  match splitOnChar '.' (c.id1.drop (id.length + 1)) with
+  | [token] =>
+    match indexOf? hdr.names token with
     | none => .error .ceError
-    | some keys =>
-      match splitOnChar '.' (c.id1.drop ((id ++ '.' :: n).length + 1)) with
-      | [token] =>
-        match indexOf? keys token with
-        | none => .error .ceError
-        | some col => do
-          let b ← rhsOperand lit (id ++ '.' :: n) keys c.id2
-          pure (.cmp ⟨col, c.op, b⟩, .ident)
-      | _ => .error .ceError
-  | .outer vis =>
-    match splitOnChar '.' (c.id1.drop (id.length + 1)) with
-    | [token] =>
-      match indexOf? hdr.names token with
+    | some col => do
+      let b ← rhsOperand lit id hdr.names c.id2
+      pure (.cmp ⟨col, c.op, b⟩, .ident)
+  | [tok1, tok2] =>
+    match indexOf? hdr.names tok1, innerKeys hdr tok1 with
+    | some ocol, some keys =>
+      match indexOf? keys tok2 with
       | none => .error .ceError
       | some col => do
-        let b ← rhsOperand lit id hdr.names c.id2
-        pure (.cmp ⟨col, c.op, b⟩, .ident)
-    | [tok1, tok2] =>
-      match indexOf? hdr.names tok1, innerKeys hdr tok1 with
-      | some _, some keys =>
-        match indexOf? keys tok2 with
-        | none => .error .ceError
-        | some col => do
-          let b ← rhsOperand lit (id ++ '.' :: tok1) keys c.id2
-          pure (.truthy, .nest (indexOf? vis tok1) ⟨col, c.op, b⟩)
-      | _, _ => .error .ceError          -- unknown child, or a second token under a `BaseType`
-    | _ => .error .ceError
+        let b ← rhsOperand lit (id ++ '.' :: tok1) keys c.id2
+        pure (.truthy, .nest ocol ⟨col, c.op, b⟩)
+    | _, _ => .error .ceError          -- unknown child, or a second token under a `BaseType`
+  | _ => .error .ceError
 
 /-! ### `__getitem__` -/
 
@@ -240,8 +226,9 @@ def getitem {A} (lit : List Char → Option A) (s : Stream A) : Key → Except E
   | .int i => .ok { s with islice := s.islice ++ [⟨some i, some (i + 1), none⟩] }
   | .slice sl => .ok { s with islice := s.islice ++ [sl] }
   | .cond c => do
-    let fm ← buildFilter lit s.id s.hdr c s.template
-    pure { s with ifilter := s.ifilter ++ [fm.1], imap := s.imap ++ [fm.2] }
+    -- `f, m = build_filter(key, self.root)`; `out.ifilter.append(f)`; `out.imap.insert(0, m)`
+    let fm ← buildFilter lit s.id s.hdr c
+    pure { s with ifilter := s.ifilter ++ [fm.1], imap := fm.2 :: s.imap }
 
 def chain {A} (lit : List Char → Option A) : Stream A → List Key → Except Err (Stream A)
   | s, [] => .ok s
@@ -309,9 +296,8 @@ def refOCond {A} (cmp : Op → A → A → Bool) (names : List Name) (r : List (
     | _ => false
   | _, _ => false
 
-/-- `strict = false`: the full property (a clause is accepted on an inner table too);
-    `strict = true`: clauses only while the layout is the outer table -/
-def refStep {A} (strict : Bool) (lit : List Char → Option A) (id : Name) (hdr : Hdr) (st : Ref A) : Key → Option (Ref A)
+/-- a clause is accepted on every layout: it is resolved against the header of the source rows -/
+def refStep {A} (lit : List Char → Option A) (id : Name) (hdr : Hdr) (st : Ref A) : Key → Option (Ref A)
   | .str k => match st.layout with
     | .table vs =>
       if k ∈ vs then
@@ -323,24 +309,19 @@ def refStep {A} (strict : Bool) (lit : List Char → Option A) (id : Name) (hdr 
     | .innerTable n vs => if k ∈ vs then some { st with layout := .innerColumn n k } else none
     | _ => none
   | .list ks => match st.layout with
-    | .table vs => if ks.all (· ∈ vs) && decide ks.Nodup then some { st with layout := .table ks } else none
+    | .table vs => if ks.all (· ∈ vs) then some { st with layout := .table ks } else none
     | .innerTable n vs => if ks.all (· ∈ vs) then some { st with layout := .innerTable n ks } else none
     | _ => none
   | .int i => some { st with slices := st.slices ++ [⟨some i, some (i + 1), none⟩] }
   | .slice sl => some { st with slices := st.slices ++ [sl] }
   | .cond c =>
-    let add : Option (Ref A) :=
-      match resolveOuter lit id hdr c with
-      | some rc => some { st with oconds := st.oconds ++ [rc] }
-      | none => (resolveInner lit id hdr c).map fun nc => { st with iconds := st.iconds ++ [nc] }
-    match st.layout with
-    | .table _ => add
-    | .innerTable _ _ => if strict then none else add
-    | _ => none
+    match resolveOuter lit id hdr c with
+    | some rc => some { st with oconds := st.oconds ++ [rc] }
+    | none => (resolveInner lit id hdr c).map fun nc => { st with iconds := st.iconds ++ [nc] }
 
-def refRun {A} (strict : Bool) (lit : List Char → Option A) (id : Name) (hdr : Hdr) : Ref A → List Key → Option (Ref A)
+def refRun {A} (lit : List Char → Option A) (id : Name) (hdr : Hdr) : Ref A → List Key → Option (Ref A)
   | st, [] => some st
-  | st, k :: ks => (refStep strict lit id hdr st k).bind fun st' => refRun strict lit id hdr st' ks
+  | st, k :: ks => (refStep lit id hdr st k).bind fun st' => refRun lit id hdr st' ks
 
 def innerRows {A} (names : List Name) (r : List (NCell A)) (n : Name) : Option (List (List A)) :=
   match cellOf names r n with
